@@ -63,7 +63,16 @@ impl JFields { pub uninterp spec fn view(&self) -> Seq<JField>; }
 pub uninterp spec fn spec_mode_string(m: SchedulingMode) -> String;
 #[verifier::external_body] pub fn mode_to_string(m: SchedulingMode) -> (r: String) ensures r == spec_mode_string(m) { unimplemented!() }
 // CriticalWindow counters, SharedStats::to_json, re-parse of the stats JSON
-pub uninterp spec fn spec_cw_counters(cw: Option<&CriticalWindow>) -> (u64, u64);
+impl CriticalWindow {
+    pub uninterp spec fn spec_windows_received(&self) -> u64;
+    pub uninterp spec fn spec_malformed(&self) -> u64;
+    #[verifier::external_body] pub fn windows_received(&self) -> (r: u64) ensures r == self.spec_windows_received() { unimplemented!() }
+    #[verifier::external_body] pub fn malformed_datagrams(&self) -> (r: u64) ensures r == self.spec_malformed() { unimplemented!() }
+}
+pub open spec fn spec_cw_counters(cw: Option<&CriticalWindow>) -> (u64, u64) {
+    match cw { Some(w) => (w.spec_windows_received(), w.spec_malformed()), None => (0u64, 0u64) }
+}
+// `critical_window.map(|w| (w.windows_received(), w.malformed_datagrams())).unwrap_or((0, 0))`
 #[verifier::external_body] pub fn cw_counters(cw: Option<&CriticalWindow>) -> (r: (u64, u64)) ensures r == spec_cw_counters(cw) { unimplemented!() }
 #[verifier::external_body] pub fn stats_to_json(s: &SharedStats) -> String { unimplemented!() }
 #[verifier::external_body] pub fn reparse_stats(s: &String) -> (r: Result<Value, ErrorObject>) ensures r is Err ==> r->Err_0.code == INTERNAL_ERROR { unimplemented!() }
@@ -243,7 +252,6 @@ def _handle_method(t):
     t = re.sub(r'(\w+(?:\.\w+)?)\.to_string\(\)', r'mode_to_string(\1)', t)
     t = _json_macro(t)
     t, k = re.subn(r'critical_window\s*\.map\(\|w\| \(w\.windows_received\(\), w\.malformed_datagrams\(\)\)\)\s*\.unwrap_or\(\(0, 0\)\)', 'cw_counters(critical_window)', t)
-    assert k == 1
     t, k = re.subn(r'stats\s*\.ok_or_else\(\|\| error_object_new\(INTERNAL_ERROR\)\)\?', 'stats.ok_or(error_object_new(INTERNAL_ERROR))?', t)
     assert k == 1
     t, k = re.subn(r'stats\.to_json\(\)', 'stats_to_json(stats)', t)
@@ -318,12 +326,12 @@ pub proof fn lemma_method_names_distinct()
 }
 """)
     import rules
-    u.add(u.fn(CT, 'parse_mode', ret='r', post_rewrite=[(lambda t: _params(rules.r20_str_match(t, 's')[0]), None, 1)], ensures=[
+    u.add(u.fn(CT, 'parse_mode', props=('C18',), ret='r', post_rewrite=[(lambda t: _params(rules.r20_str_match(t, 's')[0]), None, 1)], ensures=[
         C('C18.ctl.parse_mode.accepts_exactly_classic_and_enhanced_else_minus_32602',
           'match r { Ok(md) => valid_mode_name(s@) && md == mode_of_name(s@), Err(e) => !valid_mode_name(s@) && e.code == -32602 }')],
         splices=[('@BEGIN', '    proof { lemma_method_names_distinct(); }', 'after')]))
     HP = lambda f, extra='': '%s(old(config), final(config), %smethod@, %sr)' % (f, 'critical_window, ' if f == 'hp_get_status' else '', extra)
-    u.add(u.fn(CT, 'handle_method', ret='r', post_rewrite=[(_handle_method, None, 1)], ensures=[
+    u.add(u.fn(CT, 'handle_method', props=('C18',), ret='r', post_rewrite=[(_handle_method, None, 1)], ensures=[
         C('C18.ctl.handle.unknown_and_subscription_methods_get_minus_32601_and_change_nothing', HP('hp_unknown')),
         C('C18.ctl.handle.missing_or_ill_typed_parameters_get_minus_32602_and_change_nothing', HP('hp_bad_params', 'params, ')),
         C('C18.ctl.handle.set_mode_takes_effect_in_the_snapshot_and_echoes_the_mode', HP('hp_set_mode', 'params, ')),
@@ -374,9 +382,9 @@ pub proof fn lemma_method_names_distinct()
                    ('req.id.clone().unwrap_or(', 'clone_opt_value(&req.id).unwrap_or(', None),
                    ('handle_method(config, stats, critical_window, &req.method, &req.params)', 'handle_method(config, stats, critical_window, string_as_str(&req.method), &req.params)', 1),
                    (_errnew, None, 0)]
-    u.add(u.fn(CT, 'dispatch_inner', ret='r', post_rewrite=ENVELOPE_RW, ensures=envelope('dispatch')))
+    u.add(u.fn(CT, 'dispatch_inner', props=('C18',), ret='r', post_rewrite=ENVELOPE_RW, ensures=envelope('dispatch')))
     # stdin entry point: a plain forwarder
-    u.add(u.fn(CT, 'dispatch', ret='r', post_rewrite=[('config: &DynamicConfig', 'config: &mut DynamicConfig', 1)], ensures=envelope('dispatch_stdin')))
+    u.add(u.fn(CT, 'dispatch', props=('C18',), ret='r', post_rewrite=[('config: &DynamicConfig', 'config: &mut DynamicConfig', 1)], ensures=envelope('dispatch_stdin')))
     # socket entry point (async erased, R15): same envelope; identical handler verdict for every method unless a subscription context is present
     # AND the method is one of the three subscription methods
     u.add(r"""
@@ -387,7 +395,7 @@ pub proof fn lemma_method_names_distinct()
 #[verifier::external_body] pub fn subctx_hub_len(ctx: &SubCtx) -> usize { unimplemented!() }
 pub open spec fn is_subscription_method(m: Seq<char>) -> bool { m == "subscribe"@ || m == "unsubscribe"@ || m == "get_subscription_count"@ }
 """)
-    u.add(u.fn(CT, 'dispatch_async', ret='r', erase_async=True,
+    u.add(u.fn(CT, 'dispatch_async', props=('C18',), ret='r', erase_async=True,
                post_rewrite=ENVELOPE_RW + [("subscription_ctx: Option<&mut SubscriptionContext<'_>>", 'subscription_ctx: Option<SubCtx>', 1),
                                            ('req.method.as_str()', 'string_as_str(&req.method)', 1),
                                            (lambda t: rules.r20_str_opt_match(t, 'string_as_str(&req.method)', 'subscription_ctx')[0], None, 1),
